@@ -108,6 +108,19 @@ func doSubset(f *sfnt.Font, list []int) (res *sfnt.Font, msg string) {
 			res, msg = nil, "Subset panicked: "+fmt.Sprint(r)
 		}
 	}()
+	// the font has a past: other subsets were taken from the same font object before (they must not have changed it)
+	if n := f.NumGlyphs(); n > 1 {
+		func() {
+			defer func() { recover() }()
+			f.Subset([]glyph.ID{0, glyph.ID(n - 1)})
+			rev := make([]glyph.ID, 0, n)
+			rev = append(rev, 0)
+			for g := n - 1; g >= 1; g-- {
+				rev = append(rev, glyph.ID(g))
+			}
+			f.Subset(rev)
+		}()
+	}
 	// the glyph list belongs to the caller, who re-uses it as soon as Subset has returned
 	gl := glyphList(list)
 	res = f.Subset(gl)
